@@ -10,7 +10,8 @@ def parseAct (t : String) : Option Act :=
   | [k, a, d, n, h] => do
     let a ← a.toNat?; let d ← d.toNat?; let n ← n.toNat?; let h ← h.toNat?
     match k with
-    | "log" => some .log | "then" => some (.thenDo a) | "imm" => some (.imm a h) | "st" => some (.st a d h)
+    | "log" => some .log | "slp" => some .log   -- slp: the body blocks for d ms, then logs (the order must not notice)
+    | "then" => some (.thenDo a) | "imm" => some (.imm a h) | "st" => some (.st a d h)
     | "si" => some (.si a d n h) | "clr" => some (.clr a) | "throw" => some .throw
     | _ => none
   | _ => none
